@@ -29,6 +29,9 @@ func pathOfVal(c *Ctx, v ssa.Value) string {
 		return "new(" + typeShort(x.Type().Underlying().(*types.Pointer).Elem()) + ")"
 	case *ssa.Call:
 		if f := x.Call.StaticCallee(); f != nil && c.inModule(f) {
+			if p := returnedAlloc(c, f, 0); p != "" {
+				return p // a helper that builds and returns the record: the record itself
+			}
 			return f.Name() + "()"
 		}
 		if b, ok := x.Call.Value.(*ssa.Builtin); ok && b.Name() == "len" {
@@ -61,8 +64,41 @@ func pathOfVal(c *Ctx, v ssa.Value) string {
 		return pathOfVal(c, x.X) + "." + st.Field(x.Field).Name()
 	case *ssa.MakeClosure, *ssa.Function:
 		return "func"
+	case *ssa.Extract:
+		if call, ok := x.Tuple.(*ssa.Call); ok {
+			if f := call.Call.StaticCallee(); f != nil && c.inModule(f) {
+				if p := returnedAlloc(c, f, x.Index); p != "" {
+					return p
+				}
+			}
+		}
 	}
 	return "?"
+}
+
+// returnedAlloc: every return of f hands back, as result idx, an allocation made in f ("new(T)"):
+// for the caller the call denotes that fresh record.
+func returnedAlloc(c *Ctx, f *ssa.Function, idx int) string {
+	if f.Blocks == nil || f.Object() == nil || f.Object().Exported() {
+		return "" // exported constructors keep their own name in the paths (WithPruning().first)
+	}
+	path := ""
+	for _, b := range f.Blocks {
+		ret, ok := b.Instrs[len(b.Instrs)-1].(*ssa.Return)
+		if !ok || idx >= len(ret.Results) {
+			continue
+		}
+		al, isAlloc := ret.Results[idx].(*ssa.Alloc)
+		if !isAlloc {
+			return ""
+		}
+		p := "new(" + typeShort(al.Type().Underlying().(*types.Pointer).Elem()) + ")"
+		if path != "" && path != p {
+			return ""
+		}
+		path = p
+	}
+	return path
 }
 
 func pathOfAddr(c *Ctx, a ssa.Value) string {
